@@ -35,6 +35,9 @@ claimed = {
  "C07": dict(
    text="Lean 4 proof: snapshot; any history without TakeSnapshot; restore returns every cell of every region (banks, registers, LUTs) to its snapshot-time value; snapshot immutable; repeatable (C07_restore, C07_snapshot_immutable, C07_repeat). Tie: the copy statements of TakeSnapshot/RestoreSnapshot of every memory type and the forwarding of the wrapper are regenerated from the Go AST and proved to cover every region (snapshot_covers, wrapper_forwards) + executions on the real machines comparing the complete image after each restore with the image at snapshot time.",
    technique="Lean 4 history proof + regenerated snapshot copy lists + snapshot/restore image comparison on real machines"),
+ "C20": dict(
+   text="Lean 4 proof: for every range start<=end<=$FFFF the dump loop (counter width regenerated from the Go source, obligation 17<=bits) terminates after end-start+1 iterations, the lines concatenated are exactly the addresses start..end once in ascending order, every line but the last has 16 entries and line k starts at start+16k (C20_bytes, C20_lines, C20_terminates); a 16-bit counter provably never exits at $FFFF (counterLoop_diverges_16); an accepted specification is digits:digits, in range, non-zero, non-wrapping (C20_spec_form, C20_spec_sound, C20_spec_complete); validation precedes loading (regenerated call-order fact). Tie: exact-text differential of memory.Dump and of the parameter parser through a build-tag hook.",
+   technique="Lean 4 loop-termination and coverage proof + regenerated counter width/call order + exact-text differential"),
 }
 
 checks = []
